@@ -64,6 +64,11 @@ CHECKS = {
         text="every chain of length 0..4 over plain / generator-based (registered or not) managers with every ending and elaborate effect, exiting or not, cycles with the real bound 100, plus seeded random tables; final Context and hook call log compared on 3.9-3.12",
         note="4 manager ids; sync @contextmanager only; hooks are functions of the manager",
         ref="3.2, 4 C11"),
+    "C12": dict(
+        technique="TLA+ spec of identity-keyed registries (CodeDispatch.tla): TLC enumerates towers, nested-name paths, customize combinations and all short Register/Dispatch and IdentityDict histories over equal-but-distinct keys; every scenario executed against the real API",
+        text="towers of depth <= 3 are really called and the code object that ran is compared by identity with get_code's answer; registrations on one of two equal code objects must not apply to the other; IdentityDict is compared with the model map after each operation (results, exceptions, order)",
+        note="raw classmethod/staticmethod objects only as the outermost layer; names unique per scope (reused across scopes); operation histories of length 3 exhaustively, 7 by simulation",
+        ref="3.8, 4 C12"),
     "C13": dict(
         technique="TLA+ spec of the thread-local option stack against per-thread call trees (Options.tla), TLC exhaustive over trees x interleavings; simulated schedules replayed on real threads whose hooks grow the call tree one action at a time",
         text="Scoped / IdleIsNone / Isolated for all call trees of depth <= 3 on two threads; 2- and 3-thread schedules of 24 actions replayed with the public-API observation (stub vs full, contexts vs bare, guard error) compared after every action on 3.9-3.12",
